@@ -46,6 +46,10 @@ def make_cases(rng, tier):
             build = [r for r in build if r['d'][0] != classes[-1]]
         match = [{'t': [rng.randint(0, hi) for _ in range(S)], 'd': [rng.choice(classes) for _ in range(W)]} for _ in range(rng.randint(1, 5))]
         cases.append({'c': {'S': S, 'W': W, 'classes': classes, 'variant': 'fixed'}, 'build': build, 'match': match})
+    # building sets of more than a thousand traces: a small set presented rep times (TplCases.BuildReplication gives the profile), read as ONE batch
+    for j in (0, 1):
+        base = cases[j * 3]
+        cases.append({'c': dict(base['c']), 'build': base['build'], 'match': base['match'], 'rep': [173, 260][j]})
     # orthogonal designs: within every class the two samples are exactly uncorrelated, so the pooled covariance is exactly diagonal (in every precision);
     # presented with sample 0 multiplied by 4096 (TplCases.ScalingLemma) the two samples differ by seven orders of magnitude in variance
     for means in ([(2, 1), (6, 3)], [(3, 2), (9, 1), (5, 5)]):
@@ -57,7 +61,7 @@ def make_cases(rng, tier):
 
 def containers(case, dtype, scale):
     import scared
-    b, m = case['build'], case['match']
+    b, m = case['build'] * case.get('rep', 1), case['match']
     tb = (np.array([r['t'] for r in b], dtype='float64') * scale).astype(dtype)
     vb = np.array([r['d'] for r in b], dtype='uint16')
     tm = (np.array([r['t'] for r in m], dtype='float64') * scale).astype(dtype)
@@ -115,7 +119,7 @@ def run(chk):
     chk.add_tlc('MC:template-mean(pinned rule, must be refuted)', r0)
     if not r0.violated:
         raise tlc.TLCError('TplCases lost sensitivity: "count <= 1 -> 2 before the mean" is no longer refuted')
-    res = st.cases_run(chk, 'TplCases', cases, ['PInvLemma', 'KMatchesP', 'ScalingLemma'], 'CASES:templates')
+    res = st.cases_run(chk, 'TplCases', cases, ['PInvLemma', 'KMatchesP', 'ScalingLemma', 'BuildReplication'], 'CASES:templates')
     pres = [('uint8', 1.0), ('int16', 1.0), ('float32', 0.5), ('float64', 0.25)]
     old_bs = scared.Container._BATCH_SIZE
     try:
@@ -123,7 +127,7 @@ def run(chk):
             c = case['c']
             S = c['S']
             dt, sc = pres[ci % 4]
-            for bs in ([None, 3] if chk.tier == 'quick' else [None, 1, 2, 5]):
+            for bs in ([None, 700] if case.get('rep') else [None, 3] if chk.tier == 'quick' else [None, 1, 2, 5]):
                 scared.set_batch_size(bs)
                 for prec in ('float32', 'float64'):
                     cb, cm = containers(case, dt, sc)
